@@ -408,18 +408,15 @@ Proof.
   unfold pa_case_val.
   induction ops as [|o ops IH]; intros es vs Hlen Hall.
   - destruct vs as [|v [|v2 vs]]; destruct es as [|e [|e2 es]]; simpl in *; try discriminate; try reflexivity.
-    inversion Hall as [|? ? He _]; subst. rewrite He. destruct v; reflexivity.
+    all: try (inversion Hall as [|? ? He _]; subst; rewrite ?He; destruct v; reflexivity).
   - destruct vs as [|x [|y [|r vs]]]; destruct es as [|e1 [|e2 [|e3 es]]]; simpl in *; try discriminate; try reflexivity.
-    inversion Hall as [|? ? _ H1]; subst. inversion H1 as [|? ? _ H2]; subst. inversion H2 as [|? ? He3 H3]; subst.
-    destruct (pa_cmp_opt o x y).
-    + rewrite He3. destruct r; reflexivity.
-    + apply IH; [lia|assumption].
+    all: try (inversion Hall as [|? ? _ H1]; subst; inversion H1 as [|? ? _ H2]; subst; inversion H2 as [|? ? He3 H3]; subst;
+      destruct (pa_cmp_opt o x y); [rewrite ?He3; destruct r; reflexivity | apply IH; [lia|assumption]]).
 Qed.
 
 Lemma pa_hx_exp_int_typed : forall e n, pa_int_typed (fst (pa_hx_exp n e)) = pa_int_typed e.
 Proof.
-  intros [c|c|x|o x y] n; simpl; try reflexivity.
-  destruct (pa_hx_exp n x) as [x' cx]. destruct (pa_hx_exp (n + length cx) y) as [y' cy]. reflexivity.
+  intros e n. reflexivity.
 Qed.
 
 Lemma pa_hx_list_int_typed : forall es n,
